@@ -3,7 +3,7 @@
    N, Z, Q stay extracted inductives.  No Extract Constant. *)
 Require Extraction.
 Require Import ExtrOcamlBasic.
-From KV Require Import Model.Triu Model.Greedy Model.Kaisa Model.Trace Model.Sched Model.Register Model.Neox Model.Bucket Model.Coll Model.Mat Model.Precond Model.Clip Model.Conv Model.Factor Model.Kfac Model.Placement Model.Frame Model.Shard Model.NeoxCkpt Model.KfacComm.
+From KV Require Import Model.Triu Model.Greedy Model.Kaisa Model.Trace Model.Sched Model.Register Model.Neox Model.Bucket Model.Coll Model.Mat Model.Precond Model.Clip Model.Conv Model.Factor Model.Kfac Model.Placement Model.Frame Model.Shard Model.NeoxCkpt Model.KfacComm Model.NeoxComm.
 Extraction "model.ml" triu_idx fill_index_matrix sym_comm_outcome
   greedy greedy_ok_b greedy_prop_b kaisa_view
   Trace.run Sched.srun Sched.ctor_ok Sched.exp_decay_q
@@ -21,4 +21,5 @@ Extraction "model.ml" triu_idx fill_index_matrix sym_comm_outcome
   Frame.step_env Frame.touched
   Shard.neox_precondition
   NeoxCkpt.gathered NeoxCkpt.dict_get NeoxCkpt.load NeoxCkpt.recomputes NeoxCkpt.save_comm NeoxCkpt.load_comm
-  KfacComm.kfac_issues KfacComm.kfac_order KfacComm.kmembers.
+  KfacComm.kfac_issues KfacComm.kfac_order KfacComm.kmembers
+  NeoxComm.neox_issues NeoxComm.neox_order NeoxComm.nmembers.
